@@ -61,6 +61,9 @@ func reflectMap(v interface{}) (reflect.Value, bool) {
 	rt := rv.Type()
 	for rv.Kind() == reflect.Interface || rv.Kind() == reflect.Pointer {
 		rv = rv.Elem()
+		if isNil(rv) { // 指向 nil 的指针/接口
+			return rv, false
+		}
 		rt = rv.Type()
 	}
 	if rt.Kind() != reflect.Map || rt.Key().Kind() != reflect.String {
